@@ -36,6 +36,7 @@ class SendCommand(Contract):
 def chunks_frame(g, old):
     """at least one exchange; earlier log entries untouched; no (dis)connection"""
     return (g.nx >= old.g.nx + 1 and prefix_of(old.g.log, g.log) and len(g.log) == len(old.g.log) + (g.nx - old.g.nx)
+            and prefix_of(old.g.resps, g.resps) and len(g.resps) == len(old.g.resps) + (g.nx - old.g.nx)
             and g.conn == old.g.conn and g.disc == old.g.disc)
 
 
@@ -64,6 +65,7 @@ class SendDataInChunks(Contract):
                 and g.stream == upd(old.g.stream, k, sel(old.g.stream, k) + data[0:offset]))
     def inv_frame(g, old, finished, command, operation):
         return (g.nx >= old.g.nx and prefix_of(old.g.log, g.log) and len(g.log) == len(old.g.log) + (g.nx - old.g.nx)
+                and prefix_of(old.g.resps, g.resps) and len(g.resps) == len(old.g.resps) + (g.nx - old.g.nx)
                 and g.conn == old.g.conn and g.disc == old.g.disc and implies(finished, g.nx >= old.g.nx + 1)
                 and implies(g.nx >= old.g.nx + 1, g.last_cmd == command and g.last_op == operation))
     def inv_counters(offset, bytes_requested, total_bytes_sent=None):
